@@ -19,11 +19,13 @@ theorem faults_loadIter {m : DebugTrail} (hm : m ≠ .disable) {s : Bool} {f : F
         | some xs => xs.zipIdx.flatMap (fun p => trailPre (.idx p.2) (Fc p.1))) := by
   unfold loadIter strictExcluded
   simp only
-  split
-  · exact faults_rel_leaf (by decide) d
-  · split
-    · exact faults_rel_leaf (by decide) d
-    · rename_i xs _
+  by_cases hx : (s && (d.isMapping || d.isStr)) = true
+  · simp only [hx, ↓reduceIte]
+    exact faults_rel_leaf (cls := "ExcludedTypeLoadError") (by decide) d
+  · simp only [hx]
+    cases hi : d.iterElems with
+    | none => exact faults_rel_leaf (cls := "TypeLoadError") (by decide) d
+    | some xs =>
       exact faults_rel_bind (faults_seq_idx hm xs hc) (fun a e => trail_build_not_err _ _ _)
 
 theorem faults_loadTuple {m : DebugTrail} (hm : m ≠ .disable) {s : Bool}
@@ -41,16 +43,23 @@ theorem faults_loadTuple {m : DebugTrail} (hm : m ≠ .disable) {s : Bool}
                  (fun p => trailPre (.idx p.2) (Fc p.1.1 p.1.2))) := by
   unfold loadTuple strictExcluded
   simp only [List.length_map]
-  split
-  · exact faults_rel_leaf (by decide) d
-  · split
-    · exact faults_rel_leaf (by decide) d
-    · rename_i xs _
-      split
-      · exact faults_rel_leaf (by decide) _
-      · split
-        · exact faults_rel_leaf (by decide) _
-        · rw [trail_zipApply_map]
+  by_cases hx : (s && (d.isMapping || d.isStr)) = true
+  · simp only [hx, ↓reduceIte]
+    exact faults_rel_leaf (cls := "ExcludedTypeLoadError") (by decide) d
+  · simp only [hx]
+    cases hi : d.iterElems with
+    | none => exact faults_rel_leaf (cls := "TypeLoadError") (by decide) d
+    | some xs =>
+      simp only
+      by_cases h1 : xs.length > elems.length
+      · simp only [h1, ↓reduceIte]
+        exact faults_rel_leaf (cls := "ExtraItemsLoadError") (by decide) _
+      · simp only [h1, ↓reduceIte]
+        by_cases h2 : xs.length < elems.length
+        · simp only [h2, ↓reduceIte]
+          exact faults_rel_leaf (cls := "NoRequiredItemsLoadError") (by decide) _
+        · simp only [h2, ↓reduceIte]
+          rw [trail_zipApply_map]
           exact faults_rel_bind
             (faults_seq_idx hm (elems.zip xs) (g := fun p => L p.1 p.2)
               (Fc := fun p => Fc p.1 p.2) (fun p => hc p.1 p.2))
@@ -70,7 +79,10 @@ theorem faults_loadDict {m : DebugTrail} (hm : m ≠ .disable) {s : Bool}
   · rename_i kvs
     simp only [hvf]
     exact faults_rel_bind (faults_seq_dict hm kvs hk hv) (fun a e => trail_buildDict_not_err _ _ _ _)
-  · exact faults_rel_leaf (by decide) d
+  · rename_i hne
+    split
+    · exact absurd rfl (hne _)
+    · exact faults_rel_leaf (cls := "TypeLoadError") (by decide) d
 
 theorem faults_loadModel {m : DebugTrail} (hm : m ≠ .disable) {s : Bool} {cls : String}
     {fl : Field → Val → Outcome Val} {Fc : Field → Val → FaultList}
@@ -85,9 +97,19 @@ theorem faults_loadModel {m : DebugTrail} (hm : m ≠ .disable) {s : Bool} {cls 
   split
   · rename_i kvs
     exact faults_rel_bind (faults_seq_model hm kvs _ fields hc) (fun a e => by simp)
-  · cases m with
+  · rename_i hne
+    have hspec : (match d with
+       | .dict kvs =>
+         (if modelMissing kvs fields then [([], "NoRequiredFieldsLoadError")] else [])
+           ++ fields.flatMap (modelPresent Fc kvs)
+       | _ => [([], "TypeLoadError")]) = [([], "TypeLoadError")] := by
+      split
+      · exact absurd rfl (hne _)
+      · rfl
+    rw [hspec]
+    cases m with
     | disable => exact absurd rfl hm
-    | first => exact faults_rel_leaf (by decide) d
+    | first => exact faults_rel_leaf (cls := "TypeLoadError") (by decide) d
     | all =>
       refine ⟨fun v hv => (by cases hv), fun e he => ?_⟩
       cases he
@@ -157,7 +179,7 @@ theorem faults_load {W : World} (hW : LeafReportsInput W) (hG : LeafNotGroup W) 
       | err e =>
         obtain ⟨rfl, _⟩ := trail_loadLiteral_err hl
         simp only [Outcome.isOk, Bool.false_eq_true, ↓reduceIte]
-        exact faults_rel_leaf (by decide) d
+        exact faults_rel_leaf (cls := "BadVariantLoadError") (by decide) d
       | escape x => exact ⟨fun v hv => (by cases hv), fun e he => (by cases he)⟩
       | diverge => exact ⟨fun v hv => (by cases hv), fun e he => (by cases he)⟩
     | union cases keys =>
